@@ -242,6 +242,22 @@ Definition step_ok (probes : list string) (ann : option topo) (before after : vi
   | None => false
   end.
 
+(* The topology file and the admission list name the same members: "the current topology" is one
+   thing.  Whenever the file can be read, every probe peer is admitted (on dial and after the
+   handshake) exactly if it is a member of the stored topology - for every topology, also the
+   degenerate ones (no peers, one peer, duplicated peers, threshold at or above the number of
+   peers).  Nothing is demanded while the file cannot be read; the peerstore is not part of it. *)
+Definition store_gate_agree (probes : list string) (v : view) : bool :=
+  match v_stored v with
+  | Some t => bools_eqb (v_dial v) (map (allowed t) probes) &&
+              bools_eqb (v_secured v) (map (allowed t) probes)
+  | None => true
+  end.
+
+(* one handled refresh, as the judge sees it: the step is allowed, and file and gate agree afterwards *)
+Definition step_spec (probes : list string) (ann : option topo) (before after : view) : bool :=
+  step_ok probes ann before after && store_gate_agree probes after.
+
 (* ---- sender attribution ---- *)
 
 Record wire := mk_wire { w_type : N; w_session : string; w_payload : bytes; w_claimed_from : option string }.
